@@ -49,6 +49,8 @@ def tf(name, ht):
 
 CONTEXTS = {
     "top": lambda n: ("X" + n + "Y", "X", "Y"),
+    "nested-disabled": lambda n: ("{{<nowiki/>a|{{<nowiki/>b|X" + n + "Y}}}}", "X", "Y"),
+    "disabled-link-in-template": lambda n: ("{{<nowiki/>a|[[<nowiki/>L|X" + n + "Y]]}}", "X", "Y"),
     "template-argument": lambda n: ("{{id|X" + n + "Y}}", "X", "Y"),
     "link-text": lambda n: ("[[T|X" + n + "Y]]", "[[T|X", "Y]]"),
     "list-item": lambda n: ("* X" + n + "Y", "* X", "Y"),
@@ -104,6 +106,9 @@ for c in contents:
         except Exception as ex:
             fail("c15:expand#no-exception", f"{type(ex).__name__}: {ex}", {"content": c, "context": cname}, type(ex).__name__)
             continue
+        if any(0x10203D <= ord(ch) <= 0x10FFF0 for ch in out):
+            fail("c15:expand#no-placeholder-character-in-the-output", f"content {c!r} in {cname}: {out!r}",
+                 {"content": c, "context": cname})
         # the expansion contains the quoted body; decoding gives c back; nothing in c was expanded
         want_q = "<nowiki/>" if c == "" else None
         i = out.find("X")
